@@ -155,7 +155,11 @@ func (e *Exec) check(cond *Term, kind, what string, pos token.Pos) {
 	r := e.sat(e.tb.Not(cond))
 	switch r {
 	case "unsat":
-		e.assume(cond)
+		// proven: implied by the path condition.  Safety obligations are kept as cheap lemmas;
+		// harness assertions (large, with their own witness variables) are not re-asserted.
+		if kind != "assert" && os.Getenv("GOSYMX_NOLEMMA") == "" {
+			e.assume(cond)
+		}
 	case "sat":
 		e.fail(kind, what, pos, e.tb.Not(cond))
 		if e.sat(cond) != "sat" {
